@@ -354,10 +354,50 @@ func runC20(c *Ctx) {
 		c.Pred("dedup", "dedup-spec", in, strings.Join(got, " ") == strings.Join(want, " "), strings.Join(gotModel, " "), "first occurrences in order with the group minimum TTL", nt)
 		c.Op("dedup", "dedup "+strings.Join(recs, " "), strings.Join(gotModel, " "), nt)
 	}
+	// address families are part of an APL item: an IPv4 prefix and the same address written as a v4-mapped IPv6 prefix
+	// of the same length are different RDATA (the decoder does not mask host bits, so both come off the wire)
+	for _, pl := range []byte{32, 24, 8, 0} {
+		v4 := []byte{0, 1, pl, 4, 1, 2, 3, 4}
+		v6 := append([]byte{0, 2, pl, 16}, append(make([]byte, 10), 0xff, 0xff, 1, 2, 3, 4)...)
+		wa := assembleRR([][]byte{[]byte("apl")}, dns.TypeAPL, 1, 60, v4)
+		wb := assembleRR([][]byte{[]byte("apl")}, dns.TypeAPL, 1, 60, v6)
+		a, _, e1 := dns.UnpackRR(wa, 0)
+		b, _, e2 := dns.UnpackRR(wb, 0)
+		if e1 == nil && e2 == nil {
+			c20Pair(c, a, b, wa, wb)
+			c20Pair(c, b, a, wb, wa)
+		}
+	}
+	// the same record value more than once in the input (the same pointer, not a copy)
+	{
+		mk := func(n string, ttl uint32) dns.RR {
+			return &dns.A{Hdr: dns.RR_Header{Name: n, Rrtype: dns.TypeA, Class: 1, Ttl: ttl}, A: []byte{192, 0, 2, 1}}
+		}
+		a, b, d := mk("a.example.", 10), mk("b.example.", 20), mk("d.example.", 30)
+		for _, in := range [][]dns.RR{{a, a}, {a, b, a, b, d}, {a, a, a}, {b, a, a, d, d}} {
+			var want []string
+			seen := map[dns.RR]bool{}
+			for _, rr := range in {
+				if !seen[rr] {
+					seen[rr] = true
+					want = append(want, rr.Header().Name)
+				}
+			}
+			out := dns.Dedup(append([]dns.RR{}, in...), nil)
+			var got []string
+			for _, rr := range out {
+				got = append(got, rr.Header().Name)
+			}
+			c.Pred("dedup", "dedup-same-pointer", fmt.Sprint(len(in), " records, ", len(want), " distinct"), strings.Join(got, " ") == strings.Join(want, " "),
+				strings.Join(got, " "), strings.Join(want, " "), true)
+		}
+	}
 	// names written by hand with raw octets above 127 (text-parsed or built in code, not escaped): only the 26 ASCII letters
 	// fold; Unicode look-alikes and neighbours (Kelvin sign / k, long s / s, dotless i / I, 0xFE / 0xFF, 0xC0 / 0xE0) do not
 	rawPairs := [][2]string{{"k", "\u212a"}, {"K", "\u212a"}, {"s", "\u017f"}, {"S", "\u017f"}, {"i", "\u0131"}, {"I", "\u0130"}, {"\xfe", "\xff"},
-		{"\xc0", "\xe0"}, {"\xc9", "\xe9"}, {"ss", "\u00df"}, {"\u00e9", "\u00c9"}, {"a\u0301", "\u00e1"}}
+		{"\xc0", "\xe0"}, {"\xc9", "\xe9"}, {"ss", "\u00df"}, {"\u00e9", "\u00c9"}, {"a\u0301", "\u00e1"},
+		// the octets next to the letters, 32 apart like a letter and its other case, are different octets
+		{"[", "{"}, {"]", "}"}, {"^", "~"}, {"_", "\x7f"}, {"`", "\\@"}, {"|", "\\\\"}}
 	for _, pr := range rawPairs {
 		for _, where := range []string{"owner", "rdata", "both"} {
 			mk := func(lbl string) dns.RR {
